@@ -76,6 +76,18 @@ Theorem C10_retention_spares_newest : forall c d v, In v (victims src_crash c d)
 Proof. exact (fun c d v => victims_spec src_crash c d v). Qed.
 Print Assumptions C10_retention_spares_newest.
 
+(* 3d. restart after a kill, retention idle: as long as the retention of the sinks started afterwards
+      has removed nothing (count limit off or not reached), EVERY record of an intact file of the
+      directory the crash left and every record flushed since is in an intact file - whatever else
+      the directory holds (e.g. the complete original next to an unfinished .gz that a kill inside
+      the compression window leaves), through any number of further rotations *)
+Theorem C10_idle_retention_loses_nothing : forall c flt d0 rs k r, wf_fs d0 ->
+  retired d0 (firstn k (history_steps src_crash c flt d0 rs)) = [] ->
+  holds d0 r \/ In r (flushed d0 (firstn k (history_steps src_crash c flt d0 rs))) ->
+  holds (crash_dir d0 (history_steps src_crash c flt d0 rs) k) r.
+Proof. exact (fun c flt d0 rs k r => idle_retention_keeps_all src_crash c flt d0 rs k r (src_goodb_good _ C10_source_order_good)). Qed.
+Print Assumptions C10_idle_retention_loses_nothing.
+
 (* the boolean oracle evaluated on the real directories is exactly the property *)
 Theorem C10_oracle_spec : forall pre gone post, NoDup (names pre) -> NoDup (names post) ->
   (prop_c10_b pre gone post = true <-> forall r, holds pre r -> holds post r \/ In r gone).
@@ -98,4 +110,28 @@ Example C10_nonvacuous :
   src_goodb bad_src = false /\
   rec_in (2, 7) (crash_dir [] (history_steps bad_src ex_cfg None [] ex_recs) 13) = true /\
   rec_in (2, 7) (crash_dir [] (history_steps bad_src ex_cfg None [] ex_recs) 16) = false.
+Proof. vm_compute. repeat split; reflexivity. Qed.
+
+(* non-vacuity of 3d, the restart scenario of the check: the directory a kill between creating and
+   closing the .gz of rotation 3 leaves (complete original P3 next to an empty G3, older G1 G2, no
+   active file), then a sink with Compression and a count limit of 10 that is not reached writing three
+   records of which the last two rotate (indices 4 and 5; the unfinished pair blocks index 3): the
+   retention runs twice and removes nothing, the original is still there with its record, and so is
+   every record. *)
+Definition ex_cfg10 : cfg := {| cL := 8; cN := 10; cCompress := true; cStartup := false |}.
+Definition ex_left : fs :=
+  [(RotGz 1, {| recs := [(0, 7)]; complete := true |}); (RotGz 2, {| recs := [(1, 7)]; complete := true |});
+   (Rot 3, {| recs := [(2, 7)]; complete := true |}); (RotGz 3, {| recs := []; complete := false |})].
+Definition ex_more : list rec := [(100, 7); (101, 8); (102, 8)].
+Example C10_restart_on_unfinished_gz :
+  retired ex_left (history_steps src_crash ex_cfg10 None ex_left ex_more) = [] /\
+  map fst (filter (fun sp => match fst sp with SRename _ => true | _ => false end)
+                  (history_steps src_crash ex_cfg10 None ex_left ex_more)) = [SRename 4; SRename 5] /\
+  get (run_steps ex_left (history_steps src_crash ex_cfg10 None ex_left ex_more)) (Rot 3)
+    = Some {| recs := [(2, 7)]; complete := true |} /\
+  forallb (fun r => rec_in r (run_steps ex_left (history_steps src_crash ex_cfg10 None ex_left ex_more)))
+          [(0, 7); (1, 7); (2, 7); (100, 7); (101, 8); (102, 8)] = true /\
+  (* with a count limit that IS reached (N = 3) the original goes - as a whole file taken by retention, oldest first *)
+  retired ex_left (history_steps src_crash {| cL := 8; cN := 3; cCompress := true; cStartup := false |} None ex_left ex_more)
+    = [(0, 7); (1, 7); (2, 7)].
 Proof. vm_compute. repeat split; reflexivity. Qed.
